@@ -310,18 +310,34 @@ def split_content(content, cutpos):
 
 
 # ------------------------------------------------------------------------------------------------ inline images, document level
+def lead_stream(n):
+    """a harmless content stream of exactly n bytes that ends in white space (streams are joined without a delimiter)"""
+    body = b"q Q " * (n // 4)
+    return body + b" " * (n - len(body)) if n >= 4 else (b"q " + b" " * (n - 2) if n >= 2 else b" " * n)
+
+
+def lead_streams(lead):
+    return [lead_stream(n) for n in lead]
+
+
 def inline_doc(cases):
-    """cases: [(content bytes from `BI` on, cut offset or 0)]: one page each:
-    q 10 0 0 10 50 50 cm <content> ... the followers are part of the content; a glyph is shown by a second stream."""
+    """cases: [(content bytes from `BI` on, cut offset or 0[, lengths of preceding streams])]: one page each:
+    [preceding streams] q 10 0 0 10 50 50 cm <content> ... ; a glyph is shown by a last stream."""
     objs = {1: {"Type": Name("Catalog"), "Pages": Ref(2)},
             3: {"Type": Name("Font"), "Subtype": Name("Type1"), "BaseFont": Name("Helvetica")}}
     nxt = 4
     kids = []
-    for content, cutpos in cases:
+    for case in cases:
+        content, cutpos = case[0], case[1]
+        lead = list(case[2]) if len(case) > 2 else []
         refs = []
         head = b"q 10 0 0 10 50 50 cm\n"
         parts = split_content(content, cutpos)
-        parts[0] = head + parts[0]
+        if lead:
+            # the image's stream starts with BI (offsets as in the specification); the matrix goes into a stream of its own
+            parts = [head] + lead_streams(lead) + parts
+        else:
+            parts[0] = head + parts[0]
         parts.append(b"\nBT /F1 12 Tf 20 20 Td (Z) Tj ET\n")
         for part in parts:
             objs[nxt] = Stream({}, part)
